@@ -49,6 +49,7 @@ fn main() {
             "C01" => checks::c01::replay(&v),
             "C02" => checks::c02::replay(&v),
             "C03" => checks::c03::replay(&v),
+            "C04" => checks::c04::replay(&v),
             "C05" => checks::c05::replay(&v),
             "C06" => checks::c06::replay(&v),
             "C07" => checks::c07::replay(&v),
@@ -74,6 +75,7 @@ fn main() {
         "C01" => checks::c01::run(tier, seed),
         "C02" => checks::c02::run(tier, seed),
         "C03" => checks::c03::run(tier, seed),
+        "C04" => checks::c04::run(tier, seed),
         "C05" => checks::c05::run(tier, seed),
         "C06" => checks::c06::run(tier, seed),
         "C07" => checks::c07::run(tier, seed),
